@@ -497,11 +497,8 @@ Proof.
 Qed.
 
 (* ------------------------------------------------------------------ hexagon centres *)
-(* with the constants K = 1 and P = 0 extracted from the CURRENT source *)
-Lemma hex_parity y :
-  (y - gen_viz_hex_row_offset) mod 2 = (if y mod 2 =? gen_viz_mesh_shift_parity then 1 else 0).
+Lemma hex_parity y : (y - 1) mod 2 = (if y mod 2 =? 0 then 1 else 0).
 Proof.
-  unfold gen_viz_hex_row_offset, gen_viz_mesh_shift_parity.
   destruct (y mod 2 =? 0) eqn:E.
   - apply Z.eqb_eq in E. symmetry. apply (Z.mod_unique (y - 1) 2 (y / 2 - 1) 1); [lia|].
     pose proof (Z.div_mod y 2). lia.
@@ -519,7 +516,7 @@ Proof.
   assert (H2 : snd (mesh_center c1 r1) = snd (mesh_center c2 r2)) by (rewrite H; reflexivity).
   unfold mesh_center in H1, H2. cbn [fst snd] in H1, H2. clear H.
   assert (r1 = r2) by lia. subst r2. split; [|reflexivity].
-  destruct (r1 mod 2 =? gen_viz_mesh_shift_parity); lia.
+  destruct (r1 mod 2 =? 0); lia.
 Qed.
 
 (* ------------------------------------------------------------------ property layers *)
